@@ -229,6 +229,8 @@ func FuncBodies(r *core.Run, rel string, files ...string) (*packages.Package, []
 		want[f] = true
 	}
 	var out []ast.Node
+	seen := map[*ast.FuncDecl]bool{}
+	var seeds []*ast.FuncDecl
 	for _, f := range pk.Syntax {
 		name := r.P.Fset.Position(f.Pos()).Filename
 		name = name[strings.LastIndex(name, "/")+1:]
@@ -238,7 +240,31 @@ func FuncBodies(r *core.Run, rel string, files ...string) (*packages.Package, []
 		for _, d := range f.Decls {
 			if fd, ok := d.(*ast.FuncDecl); ok && fd.Body != nil {
 				out = append(out, fd.Body)
+				seen[fd] = true
+				seeds = append(seeds, fd)
 			}
+		}
+	}
+	// a function moved to another file of the package is still part of what the named files
+	// do as long as something in them calls it: add the same-package callees, transitively
+	if len(want) > 0 {
+		for i := 0; i < len(seeds); i++ {
+			ast.Inspect(seeds[i].Body, func(n ast.Node) bool {
+				c, ok := n.(*ast.CallExpr)
+				if !ok {
+					return true
+				}
+				fn := core.CalleeFunc(pk.TypesInfo, c)
+				if fn == nil || fn.Pkg() != pk.Types {
+					return true
+				}
+				if cd := core.DeclOf(pk, fn.Origin()); cd != nil && cd.Body != nil && !seen[cd] {
+					seen[cd] = true
+					seeds = append(seeds, cd)
+					out = append(out, cd.Body)
+				}
+				return true
+			})
 		}
 	}
 	if len(out) == 0 {
